@@ -575,6 +575,9 @@ def _has_return(stmts):
     return False
 
 
+_FLAG = [0]
+
+
 def _lower_returns(stmts, res):
     """Rewrite a statement list so that it assigns `res` instead of
     returning.  Raises _Cannot for shapes not handled."""
@@ -584,8 +587,10 @@ def _lower_returns(stmts, res):
         if isinstance(st, ast.Return):
             val = st.value if st.value is not None else \
                 ast.Constant(value=None)
-            out.append(ast.Assign(
-                targets=[ast.Name(id=res, ctx=ast.Store())], value=val))
+            asg_ = ast.Assign(
+                targets=[ast.Name(id=res, ctx=ast.Store())], value=val)
+            asg_._dt_ret = res
+            out.append(asg_)
             return out              # the rest is unreachable
         if not _has_return([st]):
             out.append(st)
@@ -630,7 +635,49 @@ def _lower_returns(stmts, res):
                 return out
             # try: return X except ...: raise / return  -- as last statement
             if rest and not _always_exits([st]):
-                raise _Cannot('try with return followed by code')
+                # a try that may return or fall through, followed by code:
+                #   done = False
+                #   try: ...; res = X; done = True  except ...: ...
+                #   if not done: <rest>
+                _FLAG[0] += 1
+                flag = f'{res}_done{_FLAG[0]}'
+
+                def mark(stmts):
+                    new_ = []
+                    for s_ in stmts:
+                        for fld in ('body', 'orelse', 'finalbody'):
+                            sub = getattr(s_, fld, None)
+                            if isinstance(sub, list) and sub and isinstance(
+                                    sub[0], ast.stmt):
+                                setattr(s_, fld, mark(sub))
+                        if isinstance(s_, ast.Try):
+                            for h_ in s_.handlers:
+                                h_.body = mark(h_.body)
+                        new_.append(s_)
+                        if isinstance(s_, ast.Assign) and getattr(
+                                s_, '_dt_ret', None) == res:
+                            new_.append(ast.Assign(
+                                targets=[ast.Name(id=flag, ctx=ast.Store())],
+                                value=ast.Constant(value=True)))
+                    return new_
+                low = ast.Try(
+                    body=mark(_lower_returns(st.body, res)),
+                    handlers=[ast.ExceptHandler(
+                        type=h.type, name=h.name,
+                        body=mark(_lower_returns(h.body, res)) or
+                        [ast.Pass()]) for h in st.handlers],
+                    orelse=mark(_lower_returns(st.orelse, res)),
+                    finalbody=st.finalbody)
+                out.append(ast.Assign(
+                    targets=[ast.Name(id=flag, ctx=ast.Store())],
+                    value=ast.Constant(value=False)))
+                out.append(low)
+                out.append(ast.If(
+                    test=ast.UnaryOp(op=ast.Not(), operand=ast.Name(
+                        id=flag, ctx=ast.Load())),
+                    body=_lower_returns(rest, res) or [ast.Pass()],
+                    orelse=[]))
+                return out
             new = ast.Try(
                 body=_lower_returns(st.body, res),
                 handlers=[ast.ExceptHandler(
